@@ -34,13 +34,23 @@ pub fn spec_for(era: EraK) -> impl Strategy<Value = Spec> {
         prop::collection::vec(0u8..6, 0..2),
         prop::option::weighted(0.4, plutus_s()),
         any::<bool>(),
-        0u32..50_000,
+        (0u32..50_000, prop_oneof![3 => Just(0u8), 4 => 1u8..7]),
     )
-        .prop_map(move |(inputs, outputs, mint, metadata, ttl_slack, validity_back, body_network_id, req_signers, plutus, legacy_outputs, extra_fee)| Spec {
+        .prop_map(move |(inputs, outputs, mint, metadata, ttl_slack, validity_back, body_network_id, req_signers, plutus, legacy_outputs, (extra_fee, aux_form))| Spec {
             era, inputs, outputs, mint, metadata, ttl_slack, validity_back, body_network_id, req_signers, plutus, legacy_outputs, extra_fee, certs: vec![],
+            aux_form, early_multiasset: false,
         })
 }
 
 pub fn spec() -> impl Strategy<Value = Spec> {
     era().prop_flat_map(spec_for)
+}
+
+/// `spec()` plus, for a third of the Shelley / Allegra recipes, native assets and a mint field (the Shelley-MA
+/// validator is shared by the three eras). Only for checks that judge nothing about a rejected base (C33, C34).
+pub fn spec_early() -> impl Strategy<Value = Spec> {
+    (spec(), prop::bool::weighted(0.35)).prop_map(|(mut s, e)| {
+        s.early_multiasset = e && s.era < EraK::Mary;
+        s
+    })
 }
